@@ -74,6 +74,7 @@ ObsInit(cfg) ==
     q      |-> [b \in BusNames(cfg) |-> <<>>],
     reg    |-> [b \in BusNames(cfg) |-> 0],
     proc   |-> [b \in BusNames(cfg) |-> <<>>],     \* events whose processing on b finished (ProcE), in order
+    early  |-> {},                                 \* [act, e, why]: an in-handler await of e returned although e was not done (C05 still covers e until it is)
     procB  |-> {},                                 \* <<b,e>> whose processing began
     lreg   |-> {},                                 \* late handlers registered so far
     lexp   |-> {},                                 \* <<b,e,h>>: late handler h was registered when bus b began to process e (so it is owed e)
@@ -245,7 +246,7 @@ StepDisp(cfg, o, ln) ==
                       !.xpar = IF new THEN Append(@, IF ln.xp THEN ln.xpe ELSE 0) ELSE @,
                       !.acc = IF ok THEN [@ EXCEPT ![b] = Append(@, e)] ELSE @,
                       !.restart = IF b \in o.stopped THEN @ \cup {b} ELSE @,
-                      !.disp = Append(@, [b |-> b, e |-> e, out |-> ln.out, act |-> ln.act, drv |-> ln.drv, fw |-> ln.fw, xp |-> ln.xp, t |-> ln.t])]
+                      !.disp = Append(@, [b |-> b, e |-> e, out |-> ln.out, act |-> ln.act, drv |-> ln.drv, fw |-> ln.fw, xp |-> ln.xp, t |-> ln.t, nl |-> o.nl + 1])]
       s == o.snap[e]
       w9 ==
         IF ~ok THEN {}
@@ -286,7 +287,7 @@ Excused6(cfg, o, x, y) ==
   \/ IsParallel(cfg, y.b) /\ \E z \in o.open : z.act # y.act /\ z.e = y.e /\ z.b = y.b /\ z.aw # 0
 
 StepEnter(cfg, o, ln) ==
-  LET x == [act |-> ln.act, b |-> ln.b, e |-> ln.e, h |-> ln.h, aw |-> 0, by |-> ln.byk, bya |-> ln.bya, t0 |-> ln.t,
+  LET x == [act |-> ln.act, b |-> ln.b, e |-> ln.e, h |-> ln.h, aw |-> 0, awim |-> FALSE, by |-> ln.byk, bya |-> ln.bya, t0 |-> ln.t,
             dl |-> IF ln.tmo < 0 THEN -1 ELSE ln.t + ln.tmo, sync |-> ln.sync,
             enc |-> {y.act : y \in {z \in o.open : z.aw # 0}}]
       key == <<ln.b, ln.e, ln.h>>
@@ -314,6 +315,10 @@ StepEnter(cfg, o, ln) ==
                                                          ELSE IF takeKind = "nowork" THEN "in_nothing_left" ELSE "in") :
                y \in {z \in o.open : z.aw # 0 /\ ~Done(o, z.aw) /\ ln.e \notin Sub(o, z.aw) /\ ~SiblingsPar(cfg, x, z)
                                    /\ ~\E z2 \in o.open : z2.act # z.act /\ SiblingsPar(cfg, z2, z) /\ z2.aw # 0 /\ ln.e \in Sub(o, z2.aw)}}
+      \* C05, second half of the interval: an await that returned too early does not end the child's priority - until the child is done nothing
+      \* unrelated may start either
+      w5e == {W("C05.unrelated", ln.e, ln.b, ln.h, ob.e, "early_" \o ob.why) :
+                ob \in {z \in o.early : ~Done(o, z.e) /\ ln.e \notin Sub(o, z.e)}}
       \* C06: cross-bus mutual exclusion
       w6 == {W("C06.overlap", ln.e, ln.b, ln.h, y.act, IF UnderParSiblings(cfg, o, x, y) THEN "parsib" ELSE ln.byk) : y \in {z \in o.open : ~Excused6(cfg, o, x, z)}}
       \* C09: event.event_bus inside a handler is the bus running it
@@ -322,7 +327,7 @@ StepEnter(cfg, o, ln) ==
       w16 == IF o.stopT[ln.b] >= 0 /\ pos # 0 /\ pos <= o.stopAcc[ln.b]
              THEN {W("C16.start_after_stop", ln.e, ln.b, ln.h, ln.act, IF ln.byk = "rl" /\ ln.b \in o.restart THEN "rl_restart" ELSE ln.byk)} ELSE {}
       o2 == Bump(IF o.open # {} THEN Bump(o1, "nested_enter") ELSE o1, "enter")
-  IN AddW(o2, w1 \cup w2a \cup w2b \cup w2n \cup w5 \cup w6 \cup w9 \cup w16)
+  IN AddW(o2, w1 \cup w2a \cup w2b \cup w2n \cup w5 \cup w5e \cup w6 \cup w9 \cup w16)
 
 Late(o, a, t) == IF IsOpen(o, a) THEN LET x == OpenAct(o, a) IN x.dl >= 0 /\ t > x.dl ELSE FALSE
 LateW(o, a, t, what) == IF Late(o, a, t) THEN {W("C10.late", OpenAct(o, a).e, OpenAct(o, a).b, OpenAct(o, a).h, a, what)} ELSE {}
@@ -346,10 +351,18 @@ StepReadBus(cfg, o, ln) ==
   ELSE LET x == OpenAct(o, ln.act) IN
        AddW(o, IF ln.rb # x.b THEN {W("C09.event_bus", x.e, x.b, x.h, x.act, IF Len(o.snap[x.e].path) > 1 /\ ln.rb = Last(o.snap[x.e].path) THEN "lastpath" ELSE ln.rb)} ELSE {})
 
+\* the await begins in the very stretch in which this handler dispatched the event: nothing but further dispatches of the same handler
+\* lies between the Disp line and this line, so no other task has run in between (no run loop can have taken the event off its queue)
+ImmediateAwait(o, act, e) ==
+  LET mine == {i \in DOMAIN o.disp : o.disp[i].e = e /\ o.disp[i].act = act /\ ~o.disp[i].fw} IN
+  IF mine = {} THEN FALSE
+  ELSE LET i == CHOOSE j \in mine : \A k \in mine : j <= k
+           later == {k \in DOMAIN o.disp : k > i}
+       IN o.nl - o.disp[i].nl = Cardinality(later) /\ \A k \in later : o.disp[k].act = act /\ ~o.disp[k].fw
 StepAwB(cfg, o, ln) ==
   IF ~IsOpen(o, ln.act) THEN o
   ELSE LET x == OpenAct(o, ln.act) IN
-       AddW([o EXCEPT !.open = (@ \ {x}) \cup {[x EXCEPT !.aw = ln.e]}], LateW(o, ln.act, ln.t, "await"))
+       AddW([o EXCEPT !.open = (@ \ {x}) \cup {[x EXCEPT !.aw = ln.e, !.awim = ImmediateAwait(o, ln.act, ln.e)]}], LateW(o, ln.act, ln.t, "await"))
 
 \* the events of the awaited tree that are not done, and why (diagnostics / classification of recorded findings)
 NotDoneAll(o, c) == {d \in Sub(o, c) : ~Done(o, d)}
@@ -369,9 +382,15 @@ StepAwE(cfg, o, ln) ==
            nd == NotDone(o, ln.e)
            w == IF ln.canc THEN {}
                 ELSE (IF ~ln.same THEN {W("C04.identity", ln.e, x.b, x.h, x.act, "")} ELSE {})
-                  \cup {W("C04.incomplete", d, x.b, x.h, x.act, WhyNotDone(o, d)) : d \in nd}
+                  \cup {W("C04.incomplete", d, x.b, x.h, x.act,
+                            \* "held" (a run loop took the event off its queue and waits for the lock) cannot happen to an event awaited at once
+                            IF WhyNotDone(o, d) = "held" /\ d = ln.e /\ x.awim THEN "held_immediate" ELSE WhyNotDone(o, d)) : d \in nd}
                   \cup LateW(o, ln.act, ln.t, "await_return")
-       IN AddW(o1, w)
+           heldImm == ln.e \in nd /\ WhyNotDone(o, ln.e) = "held" /\ x.awim
+           o2 == IF ~ln.canc /\ ~Done(o, ln.e)
+                 THEN [o1 EXCEPT !.early = @ \cup {[act |-> x.act, e |-> ln.e, why |-> IF heldImm THEN "held_immediate" ELSE "other"]}]
+                 ELSE o1
+       IN AddW(o2, w)
 
 \* ------------------------------------------------------------------------
 \* external waiters
@@ -466,6 +485,8 @@ StepProcB(cfg, o, ln) ==
       o1 == [o EXCEPT !.procB = @ \cup {<<ln.b, ln.e>>},
                       !.lexp = @ \cup {<<ln.b, ln.e, h.id>> : h \in {g \in Puppets(cfg, ln.b, o.ety[ln.e]) : IsLate(g) /\ g.id \in o.lreg}},
                       !.take = IF ln.ok = "in" THEN {tk \in @ : ~(tk[1] = ln.b /\ tk[2] = ln.e)} \cup {<<ln.b, ln.e, kind, related>>} ELSE @,
+                      \* once the draining handler processes something else first (F0), other tasks get to run: its await is no longer "immediate"
+                      !.open = IF ln.ok = "in" THEN {IF z.act = ln.oa /\ z.aw # ln.e THEN [z EXCEPT !.awim = FALSE] ELSE z : z \in @} ELSE @,
                       !.exps = {IF ~x.done /\ x.b = ln.b /\ x.ty = o.ety[ln.e] THEN [x EXCEPT !.cands = Append(@, <<ln.e, n, ln.t>>)] ELSE x : x \in @}]
   IN o1
 StepReg(cfg, o, ln) == [o EXCEPT !.lreg = @ \cup {ln.h}]
